@@ -175,6 +175,107 @@ func (ev *Env) eval(e Expr) Value {
 	return Value{}
 }
 
+// findIndexBase finds an expression x such that x[name] occurs in e (x not mentioning name).
+func findIndexBase(e Expr, name string) Expr {
+	var found Expr
+	var walk func(e Expr)
+	mentions := func(e Expr) bool {
+		m := false
+		var w func(e Expr)
+		w = func(e Expr) {
+			switch x := e.(type) {
+			case *EIdent:
+				if x.Name == name {
+					m = true
+				}
+			case *EUnary:
+				w(x.X)
+			case *EBinary:
+				w(x.X)
+				w(x.Y)
+			case *ECall:
+				for _, a := range x.Args {
+					w(a)
+				}
+			case *ESel:
+				w(x.X)
+			case *EIndex:
+				w(x.X)
+				w(x.I)
+			case *ESlice:
+				w(x.X)
+				if x.Lo != nil {
+					w(x.Lo)
+				}
+				if x.Hi != nil {
+					w(x.Hi)
+				}
+			}
+		}
+		w(e)
+		return m
+	}
+	walk = func(e Expr) {
+		if found != nil {
+			return
+		}
+		switch x := e.(type) {
+		case *EUnary:
+			walk(x.X)
+		case *EBinary:
+			walk(x.X)
+			walk(x.Y)
+		case *ECall:
+			if x.Fun == "old" || x.Fun == "ite" || x.Fun == "min" || x.Fun == "max" {
+				if x.Fun == "old" {
+					return // the base would have to be evaluated in the old state; keep index form
+				}
+			}
+			if x.Fun == "forall" || x.Fun == "exists" {
+				return
+			}
+			for _, a := range x.Args {
+				walk(a)
+			}
+		case *ESel:
+			walk(x.X)
+		case *EIndex:
+			if id, ok := x.I.(*EIdent); ok && id.Name == name && !mentions(x.X) {
+				found = x.X
+				return
+			}
+			walk(x.X)
+			walk(x.I)
+		}
+	}
+	walk(e)
+	return found
+}
+
+func elemSize(v Value) int64 {
+	if v.Kind == KString {
+		return 1
+	}
+	if sl, ok := under(v.Typ).(*types.Slice); ok {
+		return size(sl.Elem())
+	}
+	return 0
+}
+
+// tryEval evaluates without failing the whole clause.
+func (ev *Env) tryEval(e Expr) (v Value, ok bool) {
+	defer func() {
+		if r := recover(); r != nil {
+			if _, is := r.(specErr); is {
+				ok = false
+				return
+			}
+			panic(r)
+		}
+	}()
+	return ev.eval(e), true
+}
+
 func (ev *Env) want(v Value, k Kind, what string) {
 	if v.Kind != k {
 		ev.errf("operand of %s has wrong kind (%v, type %v)", what, v.Kind, v.Typ)
@@ -263,14 +364,29 @@ func (ev *Env) field(x Value, name string) Value {
 	return cur
 }
 
+// addrOf computes base + i, cancelling i of the form (- k base).
+func addrOf(base, i Term) Term {
+	pre := "(- "
+	if strings.HasPrefix(i, pre) && strings.HasSuffix(i, " "+base+")") {
+		k := i[len(pre) : len(i)-len(base)-2]
+		if !strings.ContainsAny(k, " ()") {
+			return k
+		}
+	}
+	return Add(base, i)
+}
+
 func (ev *Env) index(x Value, i Term) Value {
 	fx := ev.fr.fx
 	switch x.Kind {
 	case KSlice:
 		el := under(x.Typ).(*types.Slice).Elem()
+		if size(el) == 1 {
+			return fx.loadAt(ev.cur, addrOf(x.T, i), el, "M."+typeKey(el))
+		}
 		return fx.loadAt(ev.cur, Add(x.T, Mul(i, Num(size(el)))), el, "M."+typeKey(el))
 	case KString:
-		return IntV(Select(fx.strMem(), Add(x.T, i)), types.Typ[types.Uint8])
+		return IntV(Select(fx.strMem(), addrOf(x.T, i)), types.Typ[types.Uint8])
 	case KArray:
 		el := under(x.Typ).(*types.Array).Elem()
 		return fx.loadAt(ev.cur, Add(x.T, Mul(i, Num(size(el)))), el, "M."+typeKey(el))
@@ -420,12 +536,23 @@ func (ev *Env) call(e *ECall) Value {
 		lo, hi := ev.evalI(e.Args[1]), ev.evalI(e.Args[2])
 		*ev.nq++
 		qv := fmt.Sprintf("%s?%d", id.Name, *ev.nq)
+		// quantify over the element address when the body indexes a one-slot slice by the bound variable:
+		// the solver then sees (select M k) with a clean trigger instead of (select M (+ ptr i)).
+		iv := Term(qv)
+		if base := findIndexBase(e.Args[3], id.Name); base != nil {
+			fx.enc.quiet++
+			bv, ok := ev.tryEval(base)
+			fx.enc.quiet--
+			if ok && (bv.Kind == KSlice || bv.Kind == KString) && elemSize(bv) == 1 {
+				iv = Sub(qv, bv.T)
+			}
+		}
 		fx.enc.quiet++
 		body := func() Term {
 			defer func() { fx.enc.quiet-- }()
-			return ev.bind(id.Name, IntV(qv, tInt)).evalB(e.Args[3])
+			return ev.bind(id.Name, IntV(iv, tInt)).evalB(e.Args[3])
 		}()
-		rng := And(Le(lo, qv), Lt(qv, hi))
+		rng := And(Le(lo, iv), Lt(iv, hi))
 		if e.Fun == "forall" {
 			return BoolV(Forall(qv, Implies(rng, body)))
 		}
